@@ -1,5 +1,5 @@
 # replay of a bounded stand-in violation: re-run native/c01_backends.py
 import sys
-print("MZgate(0.6, 0.9) | (q[1], q[0]) of 2 on fock: ('quad', 0, 0.0) = [-0.5107, 1.2098], the documented action gives [-0.6715, 0.7771]")
+print("Zgate(-0.3,) | q[0] of 2 after Del | q[0] (indices shifted by one) on fock: raised ValueError: axes don't match array")
 print('REPLAY-VIOLATION')
 sys.exit(1)
